@@ -374,7 +374,7 @@ def immutability(ctx):
     ctx.ob(ok, 'glom/core.py', 'each root\'s op tuple is (itself,): %s' % [norm(r) for r in roots])
     # no mutator is ever applied to an op tuple (tuples are immutable; a list would not be)
     w = ctx.shared.get('writer') or model(ctx)[1]
-    ctx.ob(isinstance(w.append_stmt.value.right, ast.Tuple), w.unit, 'steps are appended by tuple concatenation (a new tuple per child)')
+    ctx.ob(bool(w.tuple_elts), w.unit, 'steps are appended by tuple concatenation (a new tuple per child)')
     if n_ops < 5 or n_pt < 2:
         raise AnalysisError('C18.4: found %d __ops__ and %d path_t stores (floors 5 / 2)' % (n_ops, n_pt))
     # TType has no __setattr__/__delattr__ loophole beyond slots; T attributes starting with __ are reserved
